@@ -71,6 +71,11 @@ func ProfileFor(name string) Profile {
 		p.WInvalid, p.WCapChange, p.WModify, p.WForeign, p.WAdversary, p.WCancel, p.WParams = 0.01, 0.02, 0.03, 0.0, 0.0, 0.02, 0.0
 		p.MaxRounds, p.Vesting = [2]int{0, 1}, [2]int{0, 2}
 		p.Faults = map[string]float64{FCrashPre: 0.02}
+	case "town": // C15: a dozen auctions with ten to twenty bids each (ids and bid numbers with two digits)
+		p.MaxAuctions, p.BookBuilder, p.Blocks, p.TxPerBlock = 14, true, [2]int{8, 11}, 30
+		p.WInvalid, p.WCapChange, p.WModify, p.WForeign, p.WAdversary, p.WCancel, p.WParams = 0.02, 0.03, 0.05, 0.01, 0.0, 0.01, 0.01
+		p.MaxRounds, p.Vesting = [2]int{0, 1}, [2]int{0, 3}
+		p.Faults = map[string]float64{FCrashPre: 0.02, FJoinExport: 0.08}
 	case "fixed": // C06
 		p.FixedOnly, p.MaxAuctions, p.TxPerBlock = true, 3, 5
 		p.WInvalid = 0.3
@@ -365,7 +370,7 @@ func (g *gen) genBlock(bidx int, draining bool) {
 		}
 	}
 	if g.chance(g.p.WParams) {
-		ps := ParamsSpec{ExtPeriod: uint32(g.pickInt(0, 1, 2, 7))}
+		ps := ParamsSpec{ExtPeriod: uint32(g.pickInt(0, 1, 2, 7, 1, 2, 365, 2000))}
 		if g.chance(0.6) {
 			ps.CreationFee = []Coin{{"stake", fmt.Sprint(g.in(1, 100))}}
 		}
@@ -396,7 +401,7 @@ func (g *gen) genBlock(bidx int, draining bool) {
 	if g.p.BookBuilder && !draining {
 		ntx = g.in(1, g.p.TxPerBlock+2)
 	}
-	if (g.p.Name == "crowd" || g.p.Name == "sprawl") && !draining {
+	if (g.p.Name == "crowd" || g.p.Name == "sprawl" || g.p.Name == "town") && !draining {
 		ntx = g.p.TxPerBlock
 	}
 	if draining {
@@ -629,7 +634,7 @@ func (g *gen) genTx(pm *Model) *Tx {
 	x := g.r.Float64()
 	nA := len(pm.Auctions)
 	switch {
-	case nA < g.p.MaxAuctions && (nA == 0 || x < 0.12 || (g.p.Concurrent && nA < 3) || (g.p.Name == "sprawl" && x < 0.93)):
+	case nA < g.p.MaxAuctions && (nA == 0 || x < 0.12 || (g.p.Concurrent && nA < 3) || (g.p.Name == "sprawl" && x < 0.93) || (g.p.Name == "town" && x < 0.6)):
 		return g.txCreate(pm)
 	case x < 0.12+g.p.WAdversary:
 		return g.txAdversary(pm)
